@@ -62,6 +62,7 @@ class Prop(BaseProp):
         specials += [(m, pr) for m in ('rf_max', 'rf_min') for pr in ((0.0, -0.0), (-0.0, 0.0), (1.0, 1.0), (-2.0, -2.0))]
         specials += [('rf_clamp', pr) for pr in ((-0.0, 0.0, 1.0), (0.0, -1.0, -0.0), (1.0, 1.0, 2.0), (2.0, 1.0, 2.0))]
         specials += [(m, (z,)) for m in ('rf_is_sign_positive', 'rf_is_sign_negative', 'cf_abs') for z in (0.0, -0.0)]
+        specials += [(m, (z,)) for m in ('cf_exp_m1', 'cf_ln_1p', 'cf_sin', 'cf_tanh', 'cf_asinh') for z in (1e-20, -3e-17, 1e-12, 2.5e-9)]
         for ty in tys:
             for op, res in specials:
                 a = [genvals.gen_value(rng, ty, genvals.leaf_rand, re_leaf=(lambda r, v=v: r.choice([r.uniform(-3, 3), -r.uniform(0.5, 3)]) if v is None else v)) for v in res]
